@@ -1162,54 +1162,6 @@ theorem getD_mem_simple (masters : List QGlyph) (dflt : Nat) (h : (masters.getD 
 theorem dropGlyph_length {g : QGlyph} {M : GMask} (h : ValidG g M) : (dropGlyph g M).length = g.length := by
   simp only [dropGlyph, length_zipWith, validG_length h, Nat.min_self]
 
-/-- **C02_drop_joint_spec**: what the variable path leaves in the default master's glyf entry satisfies the joint predicate,
-    for every list of masters: the default master keeps its outline within rounding, and the point set left fits every
-    participating master (a swallowed `ValueError` leaves every point) -/
-theorem C02_drop_joint_spec (masters : List QGlyph) (dflt : Nat) :
-    holdsJoint masters dflt (vfDefault masters dflt) = true := by
-  unfold holdsJoint vfDefault
-  cases hj : dropJoint masters with
-  | error e =>
-    cases e
-    obtain ⟨g0, rest, hs, g, hg, hne⟩ := (C02_drop_joint_error masters).mp hj
-    simp only [Bool.and_eq_true, Bool.or_eq_true, Bool.not_eq_true']
-    refine ⟨holds_nodrop _, Or.inr (Or.inl ?_)⟩
-    rw [hs]
-    simp only [headD_cons, all_cons, Bool.and_eq_false_iff]
-    right
-    rw [all_eq_false]
-    exact ⟨g, hg, by simpa using hne⟩
-  | ok ms =>
-    simp only [Bool.and_eq_true, Bool.or_eq_true, Bool.not_eq_true']
-    rcases (dropJoint_ok_iff masters ms).mp hj with ⟨hs, hout⟩ | ⟨g0, rest, hs, hshape, hout⟩
-    · rw [hout, hs]
-      exact ⟨holds_nodrop _, Or.inr (Or.inr rfl)⟩
-    · have hv := validG_jointMask g0 rest hshape
-      have hget : ms.getD dflt [] = dropGlyph (masters.getD dflt []) (jointMask g0 rest) := by
-        rw [hout, List.getD_eq_getElem?_getD, List.getD_eq_getElem?_getD, getElem?_map]
-        cases masters[dflt]? <;> simp [dropGlyph]
-      rw [hget]
-      cases hd : (masters.getD dflt []).isEmpty with
-      | true =>
-        have : masters.getD dflt [] = [] := by simpa using hd
-        rw [this]
-        exact ⟨rfl, Or.inl rfl⟩
-      | false =>
-        have hmem := getD_mem_simple masters dflt hd
-        rw [hs] at hmem
-        have e : ∀ g ∈ g0 :: rest, shape g = shape g0 := by
-          intro g hg
-          rcases mem_cons.mp hg with h | h
-          · rw [h]
-          · exact hshape g h
-        refine ⟨validG_holds _ _ (hv _ hmem), Or.inr (Or.inr ?_)⟩
-        rw [hs, all_eq_true]
-        intro g hg
-        simp only [Bool.and_eq_true, beq_iff_eq, length_map]
-        refine ⟨?_, validG_fits g _ _ (hv g hg) (by rw [e g hg, e _ hmem])⟩
-        rw [dropGlyph_length (hv _ hmem), length_of_shape (e g hg), length_of_shape (e _ hmem)]
-
-
 /-! ### more witnesses / non-vacuity -/
 
 def exC : List QPt := [⟨0, 0, false⟩, ⟨50, 0, true⟩, ⟨100, 0, false⟩, ⟨100, 50, true⟩, ⟨100, 100, false⟩, ⟨10, 200, true⟩]
@@ -1224,16 +1176,6 @@ theorem C02_drop_maximal (c : List QPt) : noImpliableLeft (ttDropC c) = true := 
   intro b hb
   rw [idem_contour dropTest dropTest roundPt (fun _ _ _ h => dropTest_flags h) (fun _ _ _ h => dropTest_of_round h) c b hb]
   rfl
-
-/-- **C02_drop_glyph_spec_max**: the single-font model meets the whole single-font predicate -/
-theorem C02_drop_glyph_spec_max (g : QGlyph) : holdsDropGlyphMax g ((dropSingle g).map roundQ) = true := by
-  rw [holdsDropGlyphMax, Bool.and_eq_true]
-  refine ⟨C02_drop_glyph_spec g, ?_⟩
-  rw [dropSingle_eq, all_eq_true]
-  intro o ho
-  simp only [map_map, mem_map, Function.comp] at ho
-  obtain ⟨c, -, rfl⟩ := ho
-  exact C02_drop_maximal c
 
 /-- … and it is a real demand: the undropped contour fails it -/
 example : noImpliableLeft (roundQ exC) = false := by decide +kernel
@@ -1346,6 +1288,409 @@ theorem mayDrop_spec (c : List QPt) (d : QPt) (i : Nat) :
 /-- `mayDrop_spec` is about something: index 1 of `exC` sits between points 0 and 2 -/
 example : 1 ∈ mayDrop exC ∧ 3 ∈ mayDrop exC ∧ 5 ∉ mayDrop exC := by decide +kernel
 
+/-- a composite stays what it was without the option -/
+theorem C02_drop_composite (o : Opts) (g : Glyph) (h : (g.comps.isEmpty || !g.contours.isEmpty) = false) :
+    ttGlyphDrop o g = ttGlyph o g := by
+  simp [ttGlyphDrop, ttGlyph, h]
+
+/-! ### the test of a kept point does not see what was dropped -/
+
+/-- what any valid drop guarantees about flags -/
+def Flagged (a p b : QPt) : Prop := a.on = false ∧ p.on = true ∧ b.on = false
+
+section restrict
+variable (t : QPt → QPt → QPt → Bool)
+  (ht : ∀ a p b, t a p b = true → a.on = false ∧ p.on = true ∧ b.on = false)
+include ht
+
+theorem t_off (a p b : QPt) (hp : p.on = false) : t a p b = false := by
+  cases h : t a p b with
+  | false => rfl
+  | true => have := (ht _ _ _ h).2.1; rw [hp] at this; cases this
+
+theorem restrict_core (first first' : QPt) :
+    ∀ (n : Nat) (p : QPt) (rest : List QPt) (m : List Bool) (prev prev' : QPt), rest.length ≤ n →
+      ValidGo Flagged first prev (p :: rest) m → m.headD false = false →
+      (p.on = true → prev' = prev) →
+      (∀ lastP, (p :: rest).getLast? = some lastP → lastP.on = true → first' = first) →
+      maskGo t first' prev' (dropMask (p :: rest) m) = dropMask (maskGo t first prev (p :: rest)) m := by
+  intro n
+  induction n using Nat.strongRecOn with
+  | _ n ih =>
+    intro p rest m prev prev' hn hv hm hprev hlast
+    rw [dropMask_cons_keep _ _ _ hm]
+    rw [show maskGo t first prev (p :: rest) = t prev p (rest.headD first) :: maskGo t first p rest from rfl,
+      dropMask_cons_keep _ _ _ hm]
+    rw [show maskGo t first' prev' (p :: dropMask rest m.tail) =
+      t prev' p ((dropMask rest m.tail).headD first') :: maskGo t first' p (dropMask rest m.tail) from rfl]
+    obtain ⟨-, hvr⟩ := hv
+    congr 1
+    · -- the test of `p` itself
+      cases hp : p.on with
+      | false => rw [t_off t ht _ _ _ hp, t_off t ht _ _ _ hp]
+      | true =>
+        rw [hprev hp]
+        congr 1
+        cases rest with
+        | nil => simp only [dropMask, headD_nil]; exact hlast p rfl hp
+        | cons q r =>
+          cases hq : m.tail.headD false with
+          | true => have := (hvr.1 hq).1; rw [hp] at this; cases this
+          | false => rw [dropMask_cons_keep _ _ _ hq]; rfl
+    · cases rest with
+      | nil => simp [dropMask, maskGo]
+      | cons q r =>
+        simp only [getLast?_cons_cons] at hlast
+        cases hq : m.tail.headD false with
+        | false =>
+          exact ih r.length (by simp only [length_cons] at hn; omega) q r m.tail p p (Nat.le_refl _) hvr hq (fun _ => rfl) hlast
+        | true =>
+          obtain ⟨hp, hqon, hs⟩ := hvr.1 hq
+          rw [dropMask_cons_drop _ _ _ hq]
+          rw [show maskGo t first p (q :: r) = t p q (r.headD first) :: maskGo t first q r from rfl, dropMask_cons_drop _ _ _ hq]
+          cases r with
+          | nil => simp [dropMask, maskGo]
+          | cons s r' =>
+            simp only [headD_cons] at hs
+            have hks : m.tail.tail.headD false = false := by
+              cases h : m.tail.tail.headD false with
+              | false => rfl
+              | true => have := (hvr.2.1 h).2.1; rw [hs] at this; cases this
+            exact ih r'.length (by simp only [length_cons] at hn; omega) s r' m.tail.tail q p (Nat.le_refl _) hvr.2 hks
+              (fun h => by rw [hs] at h; cases h) (by simpa only [getLast?_cons_cons] using hlast)
+
+omit ht in
+theorem last_kept_valid (first : QPt) (hfirst : first.on = true) :
+    ∀ (r : List QPt) (m : List Bool) (prev d : QPt), ValidGo Flagged first prev r m → (dropMask r m).getLastD d = r.getLastD d
+  | [], _, _, _, _ => rfl
+  | [q], m, prev, d, hv => by
+    have : m.headD false = false := by
+      cases h : m.headD false with
+      | false => rfl
+      | true => have := (hv.1 h).2.2; simp only [headD_nil] at this; rw [hfirst] at this; cases this
+    rw [dropMask_cons_keep _ _ _ this]; simp [dropMask]
+  | q :: s :: r, m, prev, d, hv => by
+    have ih := last_kept_valid first hfirst (s :: r) m.tail q
+    by_cases hb : m.headD false = true
+    · rw [dropMask_cons_drop _ _ _ hb, ih d hv.2, getLastD_cons, getLastD_cons, getLastD_cons]
+    · rw [dropMask_cons_keep _ _ _ (by simpa using hb), getLastD_cons, ih q hv.2, getLastD_cons, getLastD_cons, getLastD_cons]
+
+/-- **restriction**: after any valid drop, the test mask of what is left is the original test mask at the kept positions -/
+theorem restrict_contour (c : List QPt) (m : List Bool) (hv : ValidC Flagged c m) :
+    contourMask t (dropMask c m) = dropMask (contourMask t c) m := by
+  cases c with
+  | nil => simp [dropMask, contourMask]
+  | cons p0 r =>
+    have hcm : contourMask t (p0 :: r) = maskGo t p0 (r.getLastD p0) (p0 :: r) := rfl
+    have hcm' : ∀ (p : QPt) (X : List QPt), contourMask t (p :: X) = maskGo t p (X.getLastD p) (p :: X) := fun _ _ => rfl
+    rw [hcm]
+    by_cases h0 : m.headD false = true
+    · obtain ⟨hl, hp0, h1⟩ := hv.1 h0
+      rw [dropMask_cons_drop _ _ _ h0]
+      rw [show maskGo t p0 (r.getLastD p0) (p0 :: r) = t (r.getLastD p0) p0 (r.headD p0) :: maskGo t p0 p0 r from rfl,
+        dropMask_cons_drop _ _ _ h0]
+      cases r with
+      | nil => simp only [headD_nil] at h1; rw [hp0] at h1; cases h1
+      | cons p1 r' =>
+        simp only [headD_cons] at h1
+        have hk1 : m.tail.headD false = false := by
+          cases h : m.tail.headD false with
+          | false => rfl
+          | true => have := (hv.2.1 h).2.1; rw [h1] at this; cases this
+        have := restrict_core t ht p0 p1 r'.length p1 r' m.tail p0 ((dropMask r' m.tail.tail).getLastD p1) (Nat.le_refl _) hv.2 hk1
+          (fun h => by rw [h1] at h; cases h)
+          (fun lastP hlast hon => by
+            have : (p1 :: r').getLastD p0 = lastP := by rw [getLastD_eq_getLast?, hlast]; rfl
+            rw [this, hon] at hl; cases hl)
+        rw [dropMask_cons_keep _ _ _ hk1] at this ⊢
+        rw [hcm']; exact this
+    · have h0' : m.headD false = false := by simpa using h0
+      have := restrict_core t ht p0 p0 r.length p0 r m (r.getLastD p0) ((dropMask r m.tail).getLastD p0) (Nat.le_refl _) hv h0'
+        (fun hon => last_kept_valid p0 hon r m.tail p0 p0 hv.2) (fun _ _ _ => rfl)
+      rw [dropMask_cons_keep _ _ _ h0'] at this ⊢
+      rw [hcm']; exact this
+end restrict
+
+/-! ### joint maximality -/
+
+theorem dropMask_zipWith (f : α → β → γ) : ∀ (a : List α) (b : List β) (m : List Bool),
+    dropMask (List.zipWith f a b) m = List.zipWith f (dropMask a m) (dropMask b m)
+  | [], _, _ => by simp [dropMask]
+  | _ :: _, [], _ => by simp [dropMask]
+  | x :: a, y :: b, m => by
+    rw [zipWith_cons_cons, dropMask, dropMask, dropMask]
+    split
+    · exact dropMask_zipWith f a b m.tail
+    · rw [zipWith_cons_cons, dropMask_zipWith f a b m.tail]
+
+theorem dropMask_self_false : ∀ (m : List Bool), ∀ b ∈ dropMask m m, b = false
+  | [] => by simp [dropMask]
+  | x :: m => by
+    intro b hb
+    cases x with
+    | true => rw [dropMask_cons_drop _ _ _ rfl] at hb; exact dropMask_self_false m b hb
+    | false =>
+      rw [dropMask_cons_keep _ _ _ rfl, mem_cons] at hb
+      rcases hb with h | h
+      · exact h
+      · exact dropMask_self_false m b h
+
+theorem foldl_zipWith_dropMask (m : List Bool) : ∀ (l : List (List Bool)) (acc : List Bool),
+    (l.map (fun x => dropMask x m)).foldl (List.zipWith (fun x y => x && y)) (dropMask acc m) =
+      dropMask (l.foldl (List.zipWith (fun x y => x && y)) acc) m
+  | [], _ => rfl
+  | x :: l, acc => by
+    rw [map_cons, foldl_cons, foldl_cons, ← dropMask_zipWith, foldl_zipWith_dropMask m l]
+
+theorem andMasks_map_dropMask (m : List Bool) (l : List (List Bool)) :
+    andMasks (l.map (fun x => dropMask x m)) = dropMask (andMasks l) m := by
+  cases l with
+  | nil => simp [andMasks, dropMask]
+  | cons x l => exact foldl_zipWith_dropMask m l x
+
+theorem getD_andMask (a b : GMask) (i : Nat) :
+    (andMask a b).getD i [] = List.zipWith (fun x y => x && y) (a.getD i []) (b.getD i []) := by
+  simp only [andMask, List.getD_eq_getElem?_getD, getElem?_zipWith]
+  cases a[i]? <;> cases b[i]? <;> simp
+
+theorem getD_foldl_andMask (i : Nat) : ∀ (rest : List QGlyph) (acc : GMask),
+    (rest.foldl (fun acc g => andMask acc (glyphMask g)) acc).getD i [] =
+      (rest.map (fun g => contourMask dropTest (g.getD i []))).foldl (List.zipWith (fun x y => x && y)) (acc.getD i [])
+  | [], _ => rfl
+  | g :: rest, acc => by
+    rw [foldl_cons, getD_foldl_andMask i rest, getD_andMask, map_cons, foldl_cons]
+    congr 2
+    simp only [glyphMask, List.getD_eq_getElem?_getD, getElem?_map]
+    cases g[i]? <;> simp [contourMask]
+
+theorem glyphMask_getD (g : QGlyph) (i : Nat) : (glyphMask g).getD i [] = contourMask dropTest (g.getD i []) := by
+  simp only [glyphMask, List.getD_eq_getElem?_getD, getElem?_map]
+  cases g[i]? <;> simp [contourMask]
+
+/-- contour `i` of the joint mask is the pointwise "and" of the masters' own masks of their contour `i` -/
+theorem jointMask_getD (g0 : QGlyph) (rest : List QGlyph) (i : Nat) :
+    (jointMask g0 rest).getD i [] = andMasks ((g0 :: rest).map (fun g => contourMask dropTest (g.getD i []))) := by
+  rw [jointMask, getD_foldl_andMask, glyphMask_getD]; rfl
+
+theorem AllRel.getD' {R : List QPt → List Bool → Prop} (h0 : R [] []) : ∀ {g : QGlyph} {M : GMask} (i : Nat),
+    AllRel R g M → R (g.getD i []) (M.getD i [])
+  | [], [], _, _ => by simpa using h0
+  | [], _ :: _, _, h => h.elim
+  | _ :: _, [], _, h => h.elim
+  | _ :: _, _ :: _, 0, h => h.1
+  | _ :: g, _ :: M, i + 1, h => by
+    simp only [getD_cons_succ]; exact AllRel.getD' h0 i h.2
+
+theorem validC_flagged (c : List QPt) (m : List Bool) (h : ValidC Tested c m) : ValidC Flagged c m := by
+  cases c with
+  | nil => trivial
+  | cons p r => exact validGo_mono _ _ (fun _ _ _ h => dropTest_flags h) _ _ _ _ h
+
+theorem pick_dropMask_c (c : List QPt) (m : List Bool) (h : ValidC Tested c m) :
+    pickByFlags c ((dropMask c m).map (·.on)) = dropMask c m := by
+  cases c with
+  | nil => simp [dropMask, pickByFlags]
+  | cons p r => exact pick_dropMask p (p :: r) _ m h
+
+theorem shape_getD {g d : QGlyph} (h : shape g = shape d) (i : Nat) :
+    (g.getD i []).map (·.on) = (d.getD i []).map (·.on) := by
+  have := congrArg (fun s : GMask => s.getD i []) h
+  simp only [shape, List.getD_eq_getElem?_getD, getElem?_map] at this ⊢
+  cases hg : g[i]? <;> cases hd : d[i]? <;> simp_all
+
+theorem dropGlyph_getD {d : QGlyph} {M : GMask} (h : M.length = d.length) (i : Nat) :
+    (dropGlyph d M).getD i [] = dropMask (d.getD i []) (M.getD i []) := by
+  simp only [dropGlyph, List.getD_eq_getElem?_getD, getElem?_zipWith]
+  cases hd : d[i]? with
+  | none => simp [dropMask]
+  | some c =>
+    have : i < M.length := by rw [h]; exact (List.getElem?_eq_some_iff.mp hd).1
+    rw [getElem?_eq_getElem this]; simp
+
+/-- what the flags of the compiled default contour pick out of master `g` is `g` with the joint mask applied -/
+theorem keptOf_model (g d : QGlyph) (M : GMask) (hg : ValidG g M) (hd : ValidG d M) (hs : shape g = shape d) (i : Nat) :
+    keptOf g ((dropGlyph d M).map roundQ) i = dropMask (g.getD i []) (M.getD i []) := by
+  have hv : ValidC Tested (g.getD i []) (M.getD i []) := AllRel.getD' (R := fun c m => ValidC Tested c m) trivial i hg
+  rw [keptOf]
+  have e : (((dropGlyph d M).map roundQ).getD i []).map (·.on) = (dropMask (g.getD i []) (M.getD i [])).map (·.on) := by
+    have : ((dropGlyph d M).map roundQ).getD i [] = roundQ ((dropGlyph d M).getD i []) := by
+      simp only [List.getD_eq_getElem?_getD, getElem?_map]
+      cases (dropGlyph d M)[i]? <;> simp [roundQ]
+    rw [this, dropGlyph_getD (validG_length hd)]
+    simp only [roundQ, map_map]
+    show (dropMask (d.getD i []) _).map (·.on) = _
+    rw [← dropMask_map, ← dropMask_map, shape_getD hs]
+  rw [e, pick_dropMask_c _ _ hv]
+
+/-- **C02_drop_joint_maximal**: after the joint drop no point is left that passes the code's test in ALL participating
+    masters: the joint drop has happened, and a second joint pass would drop nothing -/
+theorem C02_drop_joint_maximal (g0 : QGlyph) (rest : List QGlyph) (hs : ∀ g ∈ rest, shape g = shape g0)
+    (d : QGlyph) (hd : d ∈ g0 :: rest) :
+    noJointImpliableLeft (g0 :: rest) ((dropGlyph d (jointMask g0 rest)).map roundQ) = true := by
+  have hv := validG_jointMask g0 rest hs
+  have e : ∀ g ∈ g0 :: rest, shape g = shape g0 := by
+    intro g hg
+    rcases mem_cons.mp hg with h | h
+    · rw [h]
+    · exact hs g h
+  rw [noJointImpliableLeft, all_eq_true]
+  intro i _
+  have hk : (g0 :: rest).map (fun g => contourMask dropTest (keptOf g ((dropGlyph d (jointMask g0 rest)).map roundQ) i)) =
+      ((g0 :: rest).map (fun g => contourMask dropTest (g.getD i []))).map (fun x => dropMask x ((jointMask g0 rest).getD i [])) := by
+    rw [map_map]
+    apply map_congr_left
+    intro g hg
+    rw [Function.comp, keptOf_model g d _ (hv g hg) (hv d hd) (by rw [e g hg, e d hd]) i]
+    exact restrict_contour dropTest (fun _ _ _ h => dropTest_flags h) _ _
+      (validC_flagged _ _ (AllRel.getD' (R := fun c m => ValidC Tested c m) trivial i (hv g hg)))
+  rw [hk, andMasks_map_dropMask, ← jointMask_getD, all_eq_true]
+  intro b hb
+  rw [dropMask_self_false _ b hb]; rfl
+
+
+/-! ### the model meets the extended predicates -/
+
+/-- **C02_drop_joint_spec**: what the variable path leaves in the default master's glyf entry satisfies the joint predicate,
+    for every list of masters: the default master keeps its outline within rounding, and the point set left fits every
+    participating master (a swallowed `ValueError` leaves every point) -/
+theorem C02_drop_joint_spec (masters : List QGlyph) (dflt : Nat) :
+    holdsJoint masters dflt (vfDefault masters dflt) = true := by
+  unfold holdsJoint vfDefault
+  cases hj : dropJoint masters with
+  | error e =>
+    cases e
+    obtain ⟨g0, rest, hs, g, hg, hne⟩ := (C02_drop_joint_error masters).mp hj
+    simp only [Bool.and_eq_true, Bool.or_eq_true, Bool.not_eq_true']
+    refine ⟨holds_nodrop _, Or.inr (Or.inl ?_)⟩
+    rw [hs]
+    simp only [headD_cons, all_cons, Bool.and_eq_false_iff]
+    right
+    rw [all_eq_false]
+    exact ⟨g, hg, by simpa using hne⟩
+  | ok ms =>
+    simp only [Bool.and_eq_true, Bool.or_eq_true, Bool.not_eq_true']
+    rcases (dropJoint_ok_iff masters ms).mp hj with ⟨hs, hout⟩ | ⟨g0, rest, hs, hshape, hout⟩
+    · rw [hout, hs]
+      exact ⟨holds_nodrop _, Or.inr (Or.inr ⟨rfl, by simp [noJointImpliableLeft, andMasks]⟩)⟩
+    · have hv := validG_jointMask g0 rest hshape
+      have hget : ms.getD dflt [] = dropGlyph (masters.getD dflt []) (jointMask g0 rest) := by
+        rw [hout, List.getD_eq_getElem?_getD, List.getD_eq_getElem?_getD, getElem?_map]
+        cases masters[dflt]? <;> simp [dropGlyph]
+      rw [hget]
+      cases hd : (masters.getD dflt []).isEmpty with
+      | true =>
+        have : masters.getD dflt [] = [] := by simpa using hd
+        rw [this]
+        exact ⟨rfl, Or.inl rfl⟩
+      | false =>
+        have hmem := getD_mem_simple masters dflt hd
+        rw [hs] at hmem
+        have e : ∀ g ∈ g0 :: rest, shape g = shape g0 := by
+          intro g hg
+          rcases mem_cons.mp hg with h | h
+          · rw [h]
+          · exact hshape g h
+        refine ⟨validG_holds _ _ (hv _ hmem), Or.inr (Or.inr ⟨?_, ?_⟩)⟩
+        case refine_2 => rw [hs]; exact C02_drop_joint_maximal g0 rest hshape _ hmem
+        rw [hs, all_eq_true]
+        intro g hg
+        simp only [Bool.and_eq_true, beq_iff_eq, length_map]
+        refine ⟨?_, validG_fits g _ _ (hv g hg) (by rw [e g hg, e _ hmem])⟩
+        rw [dropGlyph_length (hv _ hmem), length_of_shape (e g hg), length_of_shape (e _ hmem)]
+
+
+/-- **C02_drop_maximal_src**: tested on the unrounded source coordinates, none of the source points that are kept is
+    impliable (the code tests before it rounds) -/
+theorem C02_drop_maximal_src (c : List QPt) : noImpliableLeftSrc c (ttDropC c) = true := by
+  have e : (ttDropC c).map (·.on) = (dropSingleC c).map (·.on) := by simp [ttDropC, roundQ]
+  rw [noImpliableLeftSrc, e, dropSingleC, pick_dropMask_c c _ (validC_contourMask _ _ (fun _ _ _ h => h) c), all_eq_true]
+  intro b hb
+  have := idem_contour dropTest dropTest id (fun _ _ _ h => dropTest_flags h) (fun _ _ _ h => h) c
+  rw [map_id] at this
+  rw [this b hb]; rfl
+
+/-- **C02_drop_glyph_spec_max**: the single-font model meets the whole single-font predicate -/
+theorem C02_drop_glyph_spec_max (g : QGlyph) : holdsDropGlyphMax g ((dropSingle g).map roundQ) = true := by
+  rw [holdsDropGlyphMax, Bool.and_eq_true, Bool.and_eq_true]
+  refine ⟨⟨C02_drop_glyph_spec g, ?_⟩, ?_⟩
+  · rw [dropSingle_eq, all_eq_true]
+    intro o ho
+    simp only [map_map, mem_map, Function.comp] at ho
+    obtain ⟨c, -, rfl⟩ := ho
+    exact C02_drop_maximal c
+  · rw [dropSingle_eq, map_map, all_eq_true]
+    intro e he
+    have : ∀ (l : List (List QPt)) (e : List QPt × List TTPoint), e ∈ l.zip (l.map (roundQ ∘ dropSingleC)) → e.2 = ttDropC e.1 := by
+      intro l
+      induction l with
+      | nil => intro e he; simp at he
+      | cons c l ih =>
+        intro e he
+        simp only [map_cons, zip_cons_cons, mem_cons] at he
+        rcases he with h | h
+        · rw [h]; rfl
+        · exact ih e h
+    rw [this g e he]
+    exact C02_drop_maximal_src e.1
+
+/-- the source-level demand is a real one: rounding first and testing afterwards leaves (1/2, 1/2) between (0,0) and (1,1)
+    — stored as (1,1), not a midpoint any more — although the code's test on the source coordinates would drop it -/
+example :
+    let c : List QPt := [⟨0, 0, false⟩, ⟨1/2, 1/2, true⟩, ⟨1, 1, false⟩, ⟨10, -10, true⟩]
+    noImpliableLeft (roundQ c) = true ∧ noImpliableLeftSrc c (roundQ c) = false := by decide +kernel
+
+/-- **C02_drop_joint_instance**: master `k`'s glyf entry as the variable font reproduces it (`vfMaster`) is that master's own
+    points — the ones the default entry's flags pick — rounded: exactly (tolerance 0), for every participating master of a
+    compatible family -/
+theorem C02_drop_joint_instance (masters : List QGlyph) (dflt k : Nat) (g0 : QGlyph) (rest : List QGlyph)
+    (hs : simpleMasters masters = g0 :: rest) (hshape : ∀ g ∈ rest, shape g = shape g0)
+    (hd : (masters.getD dflt []).isEmpty = false) (hk : (masters.getD k []).isEmpty = false) :
+    holdsInstance 0 (masters.getD k []) (vfDefault masters dflt) (vfMaster masters dflt k) = true := by
+  have hj : dropJoint masters = .ok (masters.map (fun g => dropGlyph g (jointMask g0 rest))) := by
+    rw [dropJoint_ok_iff]; exact Or.inr ⟨g0, rest, hs, hshape, rfl⟩
+  have hget : ∀ j, (masters.map (fun g => dropGlyph g (jointMask g0 rest))).getD j [] =
+      dropGlyph (masters.getD j []) (jointMask g0 rest) := by
+    intro j
+    rw [List.getD_eq_getElem?_getD, List.getD_eq_getElem?_getD, getElem?_map]
+    cases masters[j]? <;> simp [dropGlyph]
+  have hv := validG_jointMask g0 rest hshape
+  have hmd := getD_mem_simple masters dflt hd
+  have hmk := getD_mem_simple masters k hk
+  rw [hs] at hmd hmk
+  have e : ∀ g ∈ g0 :: rest, shape g = shape g0 := by
+    intro g hg
+    rcases mem_cons.mp hg with h | h
+    · rw [h]
+    · exact hshape g h
+  simp only [vfDefault, vfMaster, hj, hget]
+  rw [holdsInstance, Bool.and_eq_true, beq_iff_eq, length_map, length_map, dropGlyph_length (hv _ hmd),
+    dropGlyph_length (hv _ hmk), length_of_shape (e _ hmd), length_of_shape (e _ hmk)]
+  refine ⟨rfl, ?_⟩
+  rw [all_eq_true]
+  intro i _
+  rw [keptOf_model _ _ _ (hv _ hmk) (hv _ hmd) (by rw [e _ hmk, e _ hmd]) i]
+  have : ((dropGlyph (masters.getD k []) (jointMask g0 rest)).map roundQ).getD i [] =
+      roundQ (dropMask ((masters.getD k []).getD i []) ((jointMask g0 rest).getD i [])) := by
+    rw [← dropGlyph_getD (validG_length (hv _ hmk))]
+    generalize dropGlyph (masters.getD k []) (jointMask g0 rest) = l
+    simp only [List.getD_eq_getElem?_getD, getElem?_map]
+    cases l[i]? <;> simp [roundQ]
+  rw [this]
+  simp only [beq_self_eq_true, Bool.true_and, all_eq_true]
+  intro p hp
+  have : ∀ (l : List TTPoint) (p : TTPoint × TTPoint), p ∈ l.zip l → p.1 = p.2 := by
+    intro l
+    induction l with
+    | nil => intro p hp; simp at hp
+    | cons a l ih =>
+      intro p hp
+      simp only [zip_cons_cons, mem_cons] at hp
+      rcases hp with h | h
+      · rw [h]
+      · exact ih p h
+  rw [this _ p hp]
+  simp [nearInt]
+
 /-- **C02_drop_ttGlyph**: whatever `TTGlyphPointPen.glyph(dropImpliedOnCurves=True, round=otRound)` returns for a glyph that ends
     up simple satisfies the single-font predicate w.r.t. the glyph's own contours in TrueType convention -/
 theorem C02_drop_ttGlyph (o : Opts) (g : Glyph) (X : List (List TTPoint)) (h : ttGlyphDrop o g = .simple X) :
@@ -1355,9 +1700,5 @@ theorem C02_drop_ttGlyph (o : Opts) (g : Glyph) (X : List (List TTPoint)) (h : t
   · injection h with h; subst h; exact C02_drop_glyph_spec_max _
   · cases h
 
-/-- a composite stays what it was without the option -/
-theorem C02_drop_composite (o : Opts) (g : Glyph) (h : (g.comps.isEmpty || !g.contours.isEmpty) = false) :
-    ttGlyphDrop o g = ttGlyph o g := by
-  simp [ttGlyphDrop, ttGlyph, h]
 
 end Ufo2ft.C02
